@@ -105,6 +105,15 @@ func ConstInt(v ssa.Value) (int64, bool) {
 	return c.Int64(), true
 }
 
+// ConstBool returns the value of a boolean constant.
+func ConstBool(v ssa.Value) (bool, bool) {
+	c, ok := Strip(v).(*ssa.Const)
+	if !ok || c.Value == nil || c.Value.Kind() != constant.Bool {
+		return false, false
+	}
+	return constant.BoolVal(c.Value), true
+}
+
 // ConstString returns the string value of a constant.
 func ConstString(v ssa.Value) (string, bool) {
 	c, ok := Strip(v).(*ssa.Const)
